@@ -136,6 +136,22 @@ def _check_case(durs, cols, off, res, light_too=True):
                     break
     except Exception as e:
         res.violation(f"C17|n={len(durs)}|route|raises:{type(e).__name__}", repr(e), dict(case0))
+    # (e) cycles and lights obtained by copying (shallow, deep, pickled) instead of constructing
+    try:
+        import copy as _copy, pickle as _pickle
+        src_c, src_l = mk(), TrafficLight(10, np.array([0.0, 0.0]), mk())
+        copies = [("copy(cycle)", _copy.copy(src_c)), ("deepcopy(cycle)", _copy.deepcopy(src_c)), ("pickle(cycle)", _pickle.loads(_pickle.dumps(src_c))),
+                  ("deepcopy(light)", _copy.deepcopy(src_l)), ("pickle(light)", _pickle.loads(_pickle.dumps(src_l))), ("copy(light)", _copy.copy(src_l))]
+        for t in ts:
+            exp = expanded[(t - off) % T]
+            for lab, obj in copies:
+                res.evals += 1; res.transitions += 1
+                got = obj.get_state_at_time_step(t)
+                if got != exp:
+                    res.violation(f"C17|n={len(durs)}|route:{lab}|wrong-state", f"{case0} t={t}: got {got} expected {exp}", dict(case0, t=t))
+                    break
+    except Exception as e:
+        res.violation(f"C17|n={len(durs)}|route:copies|raises:{type(e).__name__}", repr(e), dict(case0))
     # (c) a light is given a cycle that EQUALS the one it has but is another object, and that object is edited afterwards: the light follows the
     #     cycle it was given.  (d) two cycles constructed from one Python list; one of them is then assigned a new element list: the other keeps
     #     its definition
